@@ -82,6 +82,16 @@ Definition chk_sweep (c : view * list vdiff * bool * bool) : bool :=
   let vs := fold_left apply_diff diffs vc in
   if completed then view_eqb vc vs else if exact then negb (view_eqb vc vs) else true.
 
+(* the other public entry points (get_server_host_key, get_server_auth_methods, create_connection, the
+   reverse direction): client view, the fields in which the server's view differs, whether the entry point
+   delivered a result to its caller, the host key blob it returned (get_server_host_key only), exactness *)
+Definition chk_entry (c : view * list vdiff * bool * option bytes * bool) : bool :=
+  let '(vc, diffs, delivered, key, exact) := c in
+  let vs := fold_left apply_diff diffs vc in
+  if delivered then
+    view_eqb vc vs && match key with Some k => zlist_eqb k (k_s vs) | None => true end
+  else if exact then negb (view_eqb vc vs) else true.
+
 (* group exchange: (preferred, max) of the request as the server received it and the bit size of the
    modulus it answered with *)
 Definition chk_gex (c : Z * Z * Z) : bool :=
